@@ -118,6 +118,8 @@ def write_and_load(cfg, workdir, tid):
     from sktime.utils.data_io import write_dataframe_to_tsfile
     panel, opts, labels = cfg["panel"], cfg["opts"], cfg["labels"]
     X = pd.DataFrame({"dim_0": [pd.Series([VALUES[v] for v in c["vals"]]) for c in panel]})
+    if tid % 3 == 1:        # row labels as left behind by a shuffle / train-test split: rows are written in the given order
+        X.index = [(7 * i + 3) % len(panel) + 10 * ((i + 1) % 2) for i in range(len(panel))]
     d = os.path.join(workdir, "w%d" % tid)
     kw = {}
     if opts["labelled"]:
@@ -148,7 +150,9 @@ def dataset_record(name, loader, has_formats):
     base = os.path.join(os.path.dirname(sktime.__file__), "datasets", "data", name, name)
 
     def fps(X):
-        return [fp([np.round(np.asarray(X.iloc[i, j], dtype=float), 6) for j in range(X.shape[1])]) for i in range(len(X))]
+        # values and time index of every cell (all loaders number the time points 0..n-1)
+        return [fp([[np.round(np.asarray(X.iloc[i, j], dtype=float), 6), [int(t) for t in X.iloc[i, j].index]]
+                    for j in range(X.shape[1])]) for i in range(len(X))]
     d = {}
     Xt, yt = load_from_tsfile_to_dataframe(base + "_TRAIN.ts")
     d["ts"], d["lts"] = fps(Xt), [str(v) for v in yt]
@@ -162,15 +166,21 @@ def dataset_record(name, loader, has_formats):
             for i in range(len(X)):
                 a = np.asarray(X.iloc[i, 0], dtype=float)
                 same = i < len(Xt) and a.shape == np.asarray(Xt.iloc[i, 0]).shape and \
-                    np.allclose(a, np.asarray(Xt.iloc[i, 0], dtype=float), atol=1e-4, rtol=0)
+                    np.allclose(a, np.asarray(Xt.iloc[i, 0], dtype=float), atol=1e-4, rtol=0) and \
+                    list(X.iloc[i, 0].index) == list(Xt.iloc[i, 0].index) and X.shape[1] == Xt.shape[1]
                 out.append(d["ts"][i] if same else fp(["other", np.round(a, 6)]))
             return out
         d["arff"], d["larff"] = fps_like(Xa), [str(v) for v in ya]
         d["tsv"], d["ltsv"] = fps_like(Xv), [str(v) for v in yv]
     else:
         d["arff"], d["larff"], d["tsv"], d["ltsv"] = d["ts"], d["lts"], d["ts"], d["lts"]
+    # call history: the single-frame form of a split is asked for before the (X, y) forms
+    loader(split="train", return_X_y=False)
+    loader(split="test", return_X_y=False)
     for split, key in (("train", "train"), ("test", "test"), (None, "all")):
         X, y = loader(split=split, return_X_y=True)
+        if not all(str(c).startswith("dim_") for c in X.columns):
+            raise AssertionError("%s(split=%r, return_X_y=True): X has columns %s" % (name, split, list(X.columns)))
         d[key], d["l" + key] = fps(X), [str(v) for v in y]
     F = loader(split=None, return_X_y=False)
     ycol = [c for c in F.columns if not c.startswith("dim_")][0]
